@@ -26,18 +26,18 @@ func init() {
 }
 
 func runC10(c *core.Ctx) {
-	ruleCryptoConstants(c, "C10-R1")
-	ruleEncryptDictTables(c)
-	ruleKeyForRefLayout(c)
-	ruleIVProvenance(c)
-	ruleEncOffBeforeXRef(c, "C10-R4")
-	ruleInStreamGuards(c, "C10-R4")
-	ruleStringEncryptionUnconditional(c, "C10-R4")
-	rulePlaintextExemptions(c)
-	ruleUserKeyComparison(c, "C10-R8")
-	ruleNoArgMutation(c, "C10-R7") // an in-place cipher turns the second write of the same string into plaintext
-	ruleTrailerEncrypt(c)
-	ruleRefLimits(c, "C10-R6")
+	c.Guard(func() { ruleCryptoConstants(c, "C10-R1") })
+	c.Guard(func() { ruleEncryptDictTables(c) })
+	c.Guard(func() { ruleKeyForRefLayout(c) })
+	c.Guard(func() { ruleIVProvenance(c) })
+	c.Guard(func() { ruleEncOffBeforeXRef(c, "C10-R4") })
+	c.Guard(func() { ruleInStreamGuards(c, "C10-R4") })
+	c.Guard(func() { ruleStringEncryptionUnconditional(c, "C10-R4") })
+	c.Guard(func() { rulePlaintextExemptions(c) })
+	c.Guard(func() { ruleUserKeyComparison(c, "C10-R8") })
+	c.Guard(func() { ruleNoArgMutation(c, "C10-R7") }) // an in-place cipher turns the second write of the same string into plaintext
+	c.Guard(func() { ruleTrailerEncrypt(c) })
+	c.Guard(func() { ruleRefLimits(c, "C10-R6") })
 	c.Check("C10-R6", "pdf.limits", "object numbers are below 2^24 and generations at most 2^16-1: exactly the widths mixed into the per-object key", func(o *core.Ob) {
 		o.Count(2)
 		if v := c.Prog.ConstInt("pdf", "maxXRefSize"); v != 1<<24 {
@@ -232,8 +232,8 @@ func ruleCryptoConstants(c *core.Ctx, rule string) {
 				lo, hi := t.lo, t.hi
 				if mod, lv := rc4Modifier(fn, l); mod != nil && lv != nil && core.ObjOf(info, mod) != lv {
 					first, last, okF, okL := int64(0), int64(0), false, false
-					dec, _ := c.Prog.Tabulate(fn, mod, nil, map[string][]int64{lv.Name(): {t.lo, t.hi}}, func(env map[string]int64, n int64, _ bool) {
-						if v, _ := core.EnvGet(env, lv.Name()); v == t.lo {
+					dec, _ := c.Prog.Tabulate(fn, mod, nil, map[string][]int64{core.VarName(lv): {t.lo, t.hi}}, func(env map[string]int64, n int64, _ bool) {
+						if v, _ := core.EnvGet(env, core.VarName(lv)); v == t.lo {
 							first, okF = n, true
 						} else if v == t.hi {
 							last, okL = n, true
@@ -2097,7 +2097,7 @@ func slowHashTermination(c *core.Ctx, o *core.Ob, fn *core.Func, outer *ast.ForS
 	dec, _ := c.Prog.Tabulate(fn, test, nil, map[string][]int64{"": {0}}, func(env map[string]int64, n int64, b bool) {
 		for k := range env {
 			nLeaves++
-			if strings.HasPrefix(k, ctr.Name()+"@") {
+			if strings.HasPrefix(k, core.VarName(ctr)+"@") {
 				ctrKey = k
 			} else {
 				lastKey = k
